@@ -458,6 +458,12 @@ class DriverLubaRs232(DriverSerialBase):
                     item = self._queue_rx_raw_dali.get_nowait()
                     _LOG.critical(f"LUBA RX DALI queue discarding: {item}")
 
+            # remove confirmations nobody is waiting for any more (their
+            # sender was cancelled or timed out)
+            while not self._queue_tx_conf.empty():
+                item = self._queue_tx_conf.get_nowait()
+                _LOG.critical(f"LUBA TX confirmation queue discarding: {item}")
+
         @staticmethod
         def _insert_checksum(in_ints: list[int]) -> None:
             in_ints[-1] = reduce(xor, in_ints[1:-1])
